@@ -85,6 +85,11 @@ def make_family(shape, kinds=inject.FAULT_KINDS, budget=1):
 
 
 def families(tier):
+    from checks import c19
+    return _families(tier) + [c19.fam_sync_faults()]
+
+
+def _families(tier):
     shapes = corpus.shapes(tier)
     if tier == 'quick':
         keep = {'alloc-put', 'alloc-put-newproj', 'alloc-delete',
